@@ -83,6 +83,8 @@ CycleStep ==
 EffectiveScale ==
   LET ok == {k \in DOMAIN scales : k # in.failScale}
   IN IF ok = {} THEN nsh ELSE scales[CHOOSE k \in ok : \A m \in ok : m <= k]
+\* shards listed in a file (pkg/shard/static): scale requests are accepted and change nothing
+StaticShards == "static" \in DOMAIN KOpts /\ KOpts.static
 EstTotal(t) == IF est[t].known THEN est[t].total ELSE 0
 AssignSeq(targets) ==
   LET ord == SetToSortSeq({x.t : x \in targets}, <)
@@ -90,7 +92,7 @@ AssignSeq(targets) ==
                            IN [job |-> "j1", h |-> x.t, state |-> x.state, series |-> x.series, total |-> EstTotal(x.t)]]
 EndCycle ==
   /\ pc = "done"
-  /\ LET n2 == EffectiveScale
+  /\ LET n2 == IF StaticShards THEN nsh ELSE EffectiveScale
          upd(i) == IF i <= nsh /\ posts # <<>> /\ posts[i].sent /\ posts[i].ok
                      THEN CapTimes(S!Update(WithClock(sc[i]), AssignSeq(posts[i].targets)))
                      ELSE sc[i]
